@@ -175,6 +175,9 @@ def run(ctx):
             ctx.check(vals <= {(True, "Accepted"), (False, "Rejected")} and len(vals) == 2, "R06.2", "%s|empty-sample" % en,
                       "when no victim is left the put is accepted iff the space now suffices, else rejected", f.where(nt), str(sorted(vals, key=repr)))
 
+    for s_ in M.sites + M.helper_sites:
+        ctx.check(s_["kind"] != "unclassified" and s_.get("exact", True), "R06.7", "%s|total-written-exactly" % s_["fn"].name,
+                  "every write of the total weight applies exactly the intended amount (the space the decisions and statistics rely on is the true total)", s_["fn"].where(s_["bb"], s_["idx"]))
     # ---- R06.3 comparator ------------------------------------------------------------------------------
     cmps = [f for n, f in F.fns.items() if f.rec.get("impl_trait") == "std::cmp::Ord" and n.endswith("::cmp") and "SampledKey" in f.rec.get("self_ty", "")]
     ctx.floor("R06.3", "victim comparator", len(cmps), 1)
